@@ -466,7 +466,34 @@ def p_iter(I, n, pos, kw):
         return ObjV(None, dict(src=pos[0], pos=0), tag="iter")
     if len(pos) == 1 and isinstance(pos[0], ObjV) and pos[0].tag == "iter":
         return pos[0]
+    if len(pos) == 1 and isinstance(pos[0], ObjV) and pos[0].tag in ("zip", "enumerate", "range", "lazy-map"):
+        # iter(zip(...)) and the like over sequences of known length: the items, read one by one
+        I.log.append({"kind": "call", "target": "builtins.list", "node": n})
+        try:
+            lv = p_list(I, n, [pos[0]], {})
+        finally:
+            I.log.pop()
+        if isinstance(lv, Seq):
+            return ObjV(None, dict(src=Seq(list(lv.items), "list"), pos=0), tag="iter")
     return I.unknown("prim:builtins.iter", n)
+
+
+@prim("itertools.islice")
+def p_islice(I, n, pos, kw):
+    """islice(it, k): the next k items (fewer when the iterator runs out) — for iterators over a known list, and lists"""
+    if len(pos) == 2 and isinstance(pos[1], Sc) and pos[1].e is not None and pos[1].e[0] == "num" and float(pos[1].e[1]).is_integer() \
+            and pos[1].e[1] >= 0:
+        k = int(pos[1].e[1])
+        it = pos[0]
+        if isinstance(it, Seq):
+            return Seq(list(it.items[:k]), "list")
+        if isinstance(it, ObjV) and it.tag == "iter" and isinstance(it.attrs.get("src"), Seq) and not it.attrs.get("wraps") \
+                and isinstance(it.attrs.get("pos"), int):
+            a = it.attrs["pos"]
+            items = list(it.attrs["src"].items[a:a + k])
+            it.attrs["pos"] = a + len(items)
+            return Seq(items, "list")
+    return I.unknown("prim:itertools.islice", n)
 
 
 @prim("itertools.repeat", "itertools.cycle")
